@@ -74,7 +74,9 @@ def main():
     tmpd = tempfile.mkdtemp(prefix="vp-c03-", dir="/var/tmp")
     try:
         jobs = []     # (entry, skip, mode, path, label)
-        if replay:
+        if replay and json.load(open(replay)).get("engine") == "gate":
+            pass
+        elif replay:
             rp = json.load(open(replay))
             p = os.path.join(tmpd, "replay.bin")
             open(p, "wb").write(bytes.fromhex(rp["file_hex"]) if "file_hex" in rp else open(rp["file"], "rb").read())
@@ -150,7 +152,9 @@ def main():
         bases = [os.path.join(V.REPO, "test-dev", x) for x in ("data/test.it", "data/test.xm", "data/ode2ptk.mod", "openmpt/it/EnvLoops.it", "openmpt/xm/EnvLoops.xm", "data/m/panic.s3m", "openmpt/it/SusAfterLoop.it")]
         bases = [b for b in bases if os.path.exists(b)]
         cases = []
-        if replay:
+        if replay and json.load(open(replay)).get("engine") != "gate":
+            pass
+        elif replay:
             rp = json.load(open(replay)); cases = [(rp["edits"], rp["base"])]
         else:
             for b in bases:
@@ -202,6 +206,8 @@ def main():
                 ck.violation({"engine": "gate", "edits": c[0], "base": c[1], "expected_model": verdict[:300], "got_impl": got[:300], "loader_post_holds": postok,
                               "broken": "correspondence finish = gate ; epilogue ; prepare_scan (Model/Gate.v) vs load_module on the same raw module (hook H1)"},
                              key="gate:%s" % c[0])
+        if len(cases) > 5 and acc + rej < len(cases) // 2:
+            raise V.BuildError("gate leg: only %d of %d raw modules were compared (driver / model dump formats out of step?)" % (acc + rej, len(cases)))
         ck.engine_stat("gate", cases=len(cases), accepted=acc, rejected=rej, disagreements=nd)
         if cases:
             ck.sample({"engine": "gate", "edits": cases[min(3, len(cases) - 1)][0], "base": os.path.basename(cases[0][1])})
